@@ -648,7 +648,7 @@ func genRespawnStorm(out *bufio.Writer, rng *rand.Rand, tag string, count int) i
 // after, when the queue passes 2^k entries: the boundary case of every grow-in-steps ring buffer
 func genRingEdge(out *bufio.Writer, rng *rand.Rand, tag string, count int, thorough bool) int {
 	for n := 0; n < count; n++ {
-		k := uint(6 + rng.Intn(8)) // 64 … 8192
+		k := []uint{6, 6, 6, 7, 7, 7, 8, 8, 9, 9, 10, 11, 12, 13}[rng.Intn(14)] // 64 … 8192, small ones more often (they are cheap)
 		if thorough && n == 0 {
 			k = 16
 		}
@@ -659,7 +659,7 @@ func genRingEdge(out *bufio.Writer, rng *rand.Rand, tag string, count int, thoro
 		}
 		// after `nops` single-task cycles a block of SPL 1 grows the queue by one task per cycle:
 		// when it holds 2^k tasks the ring head is at (nops + 2^k − 1) mod 2^k
-		target := (p - base + uint64(rng.Intn(3))) % base // head position wanted: limit − 2^k, +1, +2
+		target := (p - base + []uint64{0, 0, 0, 1, 2, base - 1}[rng.Intn(6)]) % base // head position wanted: limit − 2^k (mostly), one before, one or two after
 		nops := int((target + 1) % base)
 		if rng.Intn(4) == 0 {
 			nops = int(target)
